@@ -139,10 +139,9 @@ fn judge_inplace(name: &str, x: &[u64], want: &Nat, op: impl FnOnce(&mut VecType
             None
         },
         None => {
-            if HEAP {
-                return None; // heap back-end may refuse, never wrong
-            }
-            // the property quantifies over non-zero, normalised operands
+            // Both back-ends: for vectors built with the crate's own constructors (which reserve the design
+            // capacity) a result within BIGINT_LIMBS limbs must be returned; beyond it the stack back-end must
+            // and the heap back-end may report failure. The property quantifies over non-zero, normalised operands.
             if fits && is_norm(x) && !x.is_empty() {
                 return Some(format!("{}: reported overflow but the exact result needs only {} limbs", name, want.l.len()));
             }
@@ -202,7 +201,7 @@ fn op_long_mul(x: &[u64], y: &[u64]) -> Out {
             None
         },
         None => {
-            if !HEAP && fits {
+            if fits {
                 Some(format!("long_mul: reported overflow but the product needs only {} limbs", want.l.len()))
             } else {
                 None
@@ -251,7 +250,7 @@ fn op_bigint_pow(x: u64, base: u32, n: u32) -> Out {
             None
         },
         None => {
-            if !HEAP && fits && x != 0 {
+            if fits && x != 0 {
                 Some(format!("Bigint::pow({},{}) on {}: reported overflow but the result needs only {} limbs", base, n, x, want.l.len()))
             } else {
                 None
@@ -361,6 +360,7 @@ pub fn replay_c12(rest: &[String]) -> ! {
 }
 
 fn run_op(st: &mut Stats, argv: Vec<String>) {
+    crate::run::trace_op("OP", &argv.join(" "));
     st.calls += 1;
     st.cases += 1;
     st.nontrivial += 1;
@@ -822,6 +822,7 @@ pub fn c13(a: &Args) -> (Stats, String) {
                     r /= k as u64;
                 }
                 let ops: Vec<Op> = idx.iter().map(|&i| alpha[i]).collect();
+                crate::run::trace_op("HIST", &hist_string(ci, full, &idx));
                 st.cases += 1;
                 st.nontrivial += 1;
                 st.calls += 1;
